@@ -339,6 +339,29 @@ func c09AppGate(c *Ctx, r *R) {
 		}
 	}
 	r.Check(dec, "payload-of-verified-envelope", vk.Pos(), "the statement parsed is the payload of the verified envelope", "the statement whose approvers are used is not the payload of the envelope whose signature was verified")
+	// the issuer names under which approver identities are matched to principals (appNames in
+	// verifyGitObjectAndAttestations) are those of trusted apps only
+	if vg := r.Fn(fnVGOA); vg != nil {
+		tr := eng.BoolEdges(vg, eng.PMethod("IsTrusted", nil), true)
+		n := 0
+		okN := true
+		for _, k := range eng.Calls(vg, false) {
+			if k.Name() != "builtin.append" || k.Instr.Common().Args[0].Type().String() != "[]string" {
+				continue
+			}
+			n++
+			dom := false
+			for _, e := range tr {
+				if eng.EdgeDominates(e, k.Block()) || e.To() == k.Block() {
+					dom = true
+				}
+			}
+			if !dom {
+				okN = false
+			}
+		}
+		r.Check(okN && n >= 1 && len(tr) >= 1, "issuers-trusted-only", vg.Pos(), "approver identities are matched only under the names of trusted apps", "the list of app names used to match approver identities to principals is not restricted to apps with IsTrusted() (an identity registered for an untrusted issuer would be credited)")
+	}
 	// tags excluded
 	r.Check(len(eng.BoolEdges(fn, eng.PParam("isTag"), false)) > 0, "not-for-tags", fn.Pos(), "code-review approvals are not consulted for tags", "the isTag exclusion disappeared")
 }
